@@ -265,7 +265,9 @@ class Input(ContextManager["Input"]):
             return self.queued_interrupting_events.pop(0)
 
         if self.queued_scheduled_events:
-            self.queued_scheduled_events.sort()
+            # sort on the time only: events themselves are not orderable, and a
+            # stable sort keeps events scheduled for the same time in trigger order
+            self.queued_scheduled_events.sort(key=lambda pair: pair[0])
             when, _ = self.queued_scheduled_events[0]
             if when < time.time():
                 logger.debug(
